@@ -133,7 +133,7 @@ class ReAuthAnswer(ReAuth):
         AvpGenDef("route_record", AVP_ROUTE_RECORD),
 
         AvpGenDef("origin_aaa_protocol", AVP_ORIGIN_AAA_PROTOCOL),
-        AvpGenDef("service_stype", AVP_SERVICE_TYPE),
+        AvpGenDef("service_type", AVP_SERVICE_TYPE),
         AvpGenDef("configuration_token", AVP_CONFIGURATION_TOKEN),
         AvpGenDef("idle_timeout", AVP_IDLE_TIMEOUT),
         AvpGenDef("authorization_lifetime", AVP_AUTHORIZATION_LIFETIME),
@@ -224,7 +224,7 @@ class ReAuthRequest(ReAuth):
         AvpGenDef("nas_port", AVP_NAS_PORT),
         AvpGenDef("nas_port_id", AVP_NAS_PORT_ID),
         AvpGenDef("nas_port_type", AVP_NAS_PORT_TYPE),
-        AvpGenDef("service_stype", AVP_SERVICE_TYPE),
+        AvpGenDef("service_type", AVP_SERVICE_TYPE),
         AvpGenDef("framed_ip_address", AVP_FRAMED_IP_ADDRESS),
         AvpGenDef("framed_ipv6_prefix", AVP_FRAMED_IPV6_PREFIX),
         AvpGenDef("framed_interface_id", AVP_FRAMED_INTERFACE_ID),
